@@ -9,7 +9,12 @@
     both ARBITRARY functions, nothing is assumed about keccak or secp256k1.  [st_issued] is every
     value the chain ever published for signing through ANY channel: stored as a batch's BytesToSign
     (build, re-estimate) or handed out by a batch query ([OQuery]: LastPendingBatchRequestByAddr,
-    OutgoingTxBatches, BatchRequestByNonce, LastPendingBatchForGasEstimation); [st_archive] the
+    OutgoingTxBatches, BatchRequestByNonce, LastPendingBatchForGasEstimation) by the chain instance
+    that is running; [OGenesis] is a restart from an exported genesis (batch records come back, the
+    archive is not part of the genesis state), after which [st_issued] is what the new instance shows
+    from its first block on; [st_ever] is never reset (any instance, ever).  [genesis_safe g ops] :=
+    InitGenesis archives the BytesToSign of the batches it imports, or [ops] contains no restart
+    (the histories of the first round).  [st_archive] the
     PastEthSignatureCheckpoint set.  [code_cfg] says which functions archive and whether the
     evidence handler consults the archive — it is TRANSLATED FROM THE SOURCE on every run
     (Gen.C13), the [eq_refl]s below are where a source that stops archiving stops checking.
@@ -29,7 +34,8 @@ Open Scope Z_scope.
     longer type-checks by [eq_refl] and the model has to be looked at again. *)
 Theorem model_is_of_current_source :
   code_cfg = {| c_build_archives := true; c_reissue_archives := true; c_rejects_archived := true; c_set_once := true;
-                c_queries_stored := true; c_confirm_recomputes := true |} /\
+                c_queries_stored := true; c_confirm_recomputes := true;
+                c_genesis_archives_live := Gen.C13.genesis_archives_live |} /\
   Gen.C13.batch_queries = ["BatchRequestByNonce"; "LastPendingBatchForGasEstimation"; "LastPendingBatchRequestByAddr";
                            "OutgoingTxBatches"]%string /\
   Gen.C13.add_evidence_one_entry_per_validator = true /\
@@ -47,6 +53,7 @@ Print Assumptions model_is_of_current_source.
     was elected, under whatever deployment id was in force — is in the archive, after every history. *)
 Theorem issued_subset_archive :
   forall (Sig : Type) (cp : Z -> Z -> Z -> Z) (recover : Z -> Sig -> option addr) (ops : list (op Sig)) (c : Z),
+  genesis_safe code_cfg ops ->
   In c (st_issued (run cp recover code_cfg ops)) -> In c (st_archive (run cp recover code_cfg ops)).
 Proof. exact (fun Sig cp recover => issued_incl_archive cp recover code_cfg eq_refl eq_refl eq_refl). Qed.
 Print Assumptions issued_subset_archive.
@@ -61,9 +68,14 @@ Print Assumptions stored_bytes_to_sign_were_issued.
 
 Theorem issued_and_archive_never_shrink :
   forall (Sig : Type) (cp : Z -> Z -> Z -> Z) (recover : Z -> Sig -> option addr) (later : list (op Sig)) (s : state),
-  incl (st_issued s) (st_issued (run_from cp recover code_cfg s later)) /\
-  incl (st_archive s) (st_archive (run_from cp recover code_cfg s later)).
-Proof. exact (fun Sig cp recover => issued_and_archive_only_grow cp recover code_cfg). Qed.
+  (~ In (@OGenesis Sig) later ->
+   incl (st_issued s) (st_issued (run_from cp recover code_cfg s later)) /\
+   incl (st_archive s) (st_archive (run_from cp recover code_cfg s later))) /\
+  incl (st_ever s) (st_ever (run_from cp recover code_cfg s later)).
+Proof.
+  exact (fun Sig cp recover later s =>
+    conj (fun NG => issued_and_archive_only_grow cp recover code_cfg later NG s) (ever_only_grows cp recover code_cfg later s)).
+Qed.
 Print Assumptions issued_and_archive_never_shrink.
 
 (** The headline.  After ANY history, let [c] be a checkpoint the chain published at any earlier
@@ -75,6 +87,7 @@ Theorem honest_signer_never_jailed :
   forall (Sig Key : Type) (cp : Z -> Z -> Z -> Z) (recover : Z -> Sig -> option addr)
          (sign : Key -> Z -> Sig) (addr_of : Key -> addr)
          (ops : list (op Sig)) (chain body est : Z) (k : Key) (c : Z) (v : val),
+  genesis_safe code_cfg ops ->
   In c (st_issued (run cp recover code_cfg ops)) ->
   uses_only_key addr_of (run cp recover code_cfg ops) chain v k ->
   newly_jailed (run cp recover code_cfg ops)
@@ -86,12 +99,32 @@ Proof.
 Qed.
 Print Assumptions honest_signer_never_jailed.
 
+(** The same with NO hypothesis about who registered what (the [uses_only_key] premise above is only
+    needed to name the signer's own address in the alternative): a signature over a published
+    checkpoint jails nobody at all -- not its signer, not any other validator -- unless that one
+    signature recovers, under a message different from the one signed, to an address the jailed
+    validator registered. *)
+Theorem published_signature_is_useless_as_evidence :
+  forall (Sig Key : Type) (cp : Z -> Z -> Z -> Z) (recover : Z -> Sig -> option addr) (sign : Key -> Z -> Sig)
+         (ops : list (op Sig)) (chain body est : Z) (k : Key) (c : Z) (v : val),
+  genesis_safe code_cfg ops ->
+  In c (st_issued (run cp recover code_cfg ops)) ->
+  newly_jailed (run cp recover code_cfg ops)
+               (step cp recover code_cfg (run cp recover code_cfg ops) (OEvidence chain body est (sign k c))) v ->
+  exists m' a, m' <> c /\ recover m' (sign k c) = Some a /\ In (chain, v, a) (st_reg (run cp recover code_cfg ops)).
+Proof.
+  exact (fun Sig Key cp recover sign =>
+           published_signature_jails_nobody cp recover sign code_cfg eq_refl eq_refl eq_refl eq_refl).
+Qed.
+Print Assumptions published_signature_is_useless_as_evidence.
+
 (** Who does get jailed by evidence: the first validator registered (on that chain) with the
     address the signature recovers to under the SUBJECT's checkpoint, and that checkpoint was
     never published nor archived. *)
 Theorem bad_sig_jails_only_registered_signer_of_unissued :
   forall (Sig : Type) (cp : Z -> Z -> Z -> Z) (recover : Z -> Sig -> option addr)
          (ops : list (op Sig)) (chain body est : Z) (sg : Sig) (v : val),
+  genesis_safe code_cfg ops ->
   newly_jailed (run cp recover code_cfg ops)
                (step cp recover code_cfg (run cp recover code_cfg ops) (OEvidence chain body est sg)) v ->
   exists tid a,
@@ -146,6 +179,7 @@ Print Assumptions without_rearchiving_an_honest_signer_is_jailed.
     reading a query never asks for a signature over anything new ... *)
 Theorem queries_serve_only_archived_checkpoints :
   forall (Sig : Type) (cp : Z -> Z -> Z -> Z) (recover : Z -> Sig -> option addr) (ops : list (op Sig)) (key c : Z),
+  genesis_safe code_cfg ops ->
   served_bts cp code_cfg (run cp recover code_cfg ops) key = Some c ->
   In c (st_issued (run cp recover code_cfg ops)) /\ In c (st_archive (run cp recover code_cfg ops)).
 Proof. exact (fun Sig cp recover => query_serves_issued cp recover code_cfg eq_refl eq_refl eq_refl). Qed.
@@ -200,6 +234,52 @@ Theorem confirm_after_redeploy_verifies_an_unpublished_checkpoint :
   newly_jailed s (step ex_cp ex_recover code_cfg s (OEvidence 1 42 0 (ex_sign 5 (ex_cp 8 42 300000)))) 5.
 Proof. exact confirm_after_redeploy_checks_unpublished. Qed.
 Print Assumptions confirm_after_redeploy_verifies_an_unpublished_checkpoint.
+
+(** Chain restart from an exported genesis.  [genesis_safe] holds for EVERY history once InitGenesis
+    archives what it imports (the flag is read from the source) ... *)
+Theorem genesis_safe_for_all_histories_once_import_archives :
+  Gen.C13.genesis_archives_live = true -> forall (Sig : Type) (ops : list (op Sig)), genesis_safe code_cfg ops.
+Proof. exact (fun H Sig ops => or_introl H). Qed.
+Print Assumptions genesis_safe_for_all_histories_once_import_archives.
+
+(** ... and is needed: with an InitGenesis that does not, the restarted chain serves (and
+    ConfirmBatch verifies against) bytes to sign that are not in its archive, and the validator
+    that signs them is jailed by the replay. *)
+Theorem after_an_unarchiving_genesis_import_an_honest_signer_is_jailed :
+  let s := run ex_cp ex_recover unarchiving_genesis_cfg ex_genesis_history in
+  served_bts ex_cp unarchiving_genesis_cfg s 1 = Some (ex_cp 7 42 300000) /\
+  confirm_checks_against ex_cp unarchiving_genesis_cfg s 1 = Some (ex_cp 7 42 300000) /\
+  In (ex_cp 7 42 300000) (st_issued s) /\ ~ In (ex_cp 7 42 300000) (st_archive s) /\
+  uses_only_key ex_addr s 1 5 5 /\
+  newly_jailed s (step ex_cp ex_recover unarchiving_genesis_cfg s (OEvidence 1 42 0 (ex_sign 5 (ex_cp 7 42 300000)))) 5 /\
+  ~ recover_binding_broken ex_recover ex_sign ex_addr.
+Proof. exact honest_jailed_after_unarchiving_genesis. Qed.
+Print Assumptions after_an_unarchiving_genesis_import_an_honest_signer_is_jailed.
+
+(** KNOWN FINDING (C13:retired-checkpoint-unprotected-after-genesis), not repairable without
+    carrying the archive in the genesis state: "everything any instance ever published is archived"
+    holds without a restart ([st_ever] = [st_issued] then) and is REFUTED across one, even with an
+    InitGenesis that archives what it imports -- the checkpoint of a batch retired before the export
+    is gone from the archive and its genuine confirmation jails the signer. *)
+Theorem ever_published_is_archived_without_restart :
+  forall (Sig : Type) (cp : Z -> Z -> Z -> Z) (recover : Z -> Sig -> option addr) (ops : list (op Sig)) (c : Z),
+  ~ In (@OGenesis Sig) ops ->
+  In c (st_ever (run cp recover code_cfg ops)) -> In c (st_archive (run cp recover code_cfg ops)).
+Proof.
+  exact (fun Sig cp recover ops c NG H =>
+    issued_incl_archive cp recover code_cfg eq_refl eq_refl eq_refl ops c (or_intror NG)
+      (eq_ind _ (fun l => In c l) H _ (ever_is_issued_without_genesis cp recover code_cfg ops NG))).
+Qed.
+Print Assumptions ever_published_is_archived_without_restart.
+
+Theorem ever_published_is_archived_across_restart_refuted :
+  let s := run ex_cp ex_recover archiving_genesis_cfg ex_retired_history in
+  In (ex_cp 7 42 300000) (st_ever s) /\ ~ In (ex_cp 7 42 300000) (st_issued s) /\ ~ In (ex_cp 7 42 300000) (st_archive s) /\
+  uses_only_key ex_addr s 1 5 5 /\
+  newly_jailed s (step ex_cp ex_recover archiving_genesis_cfg s (OEvidence 1 42 0 (ex_sign 5 (ex_cp 7 42 300000)))) 5 /\
+  ~ recover_binding_broken ex_recover ex_sign ex_addr.
+Proof. exact retired_checkpoint_unprotected_after_genesis. Qed.
+Print Assumptions ever_published_is_archived_across_restart_refuted.
 
 (** Pruning.  Whoever is jailed after PruneOldMessages and was not jailed before: there is one
     pruned message that was delivered (public-access or error data), failed consensus, on which at
